@@ -171,8 +171,7 @@ def all_jobs(tier):
                  dot=True, fam="assign"))
     # --- sensitivity: each deviation alone must break its invariant -------------
     for d, inv in MQ_DEVS.items():
-        J.append(Job(f"mq dev {d}", "MQueueMC.tla", mq_consts(dev=[d]), [inv] + [i for i in MQ_INVS if i != inv],
-                     "dev", expect=inv, workers=1))
+        J.append(Job(f"mq dev {d}", "MQueueMC.tla", mq_consts(dev=[d]), [inv], "dev", expect=inv, workers=1))
     for d, inv in TP_DEVS.items():
         J.append(Job(f"topic dev {d}", "TopicMC.tla", tp_consts(dev=[d]), TP_INVS, "dev", expect=inv, workers=1))
     for d, (inv, kw) in ST_DEVS.items():
